@@ -18,6 +18,15 @@ def clear_caches():
     dataflow._reach_cache.clear()
 
 
+def parse_tree(overlay=None, root=None):
+    """Parsed and normalised tree to hand to several run_check calls, or an
+    AnalysisError instance when it cannot be built."""
+    try:
+        return Repo(root=root, overlay=overlay)
+    except AnalysisError as e:
+        return e
+
+
 def run_check(prop, tier='quick', overlay=None, write=True, quiet=False,
               root=None, repo=None):
     """Run one property's rules; returns the Check (status in .status;
@@ -26,6 +35,8 @@ def run_check(prop, tier='quick', overlay=None, write=True, quiet=False,
     from .rules import RULES
     ck = None
     try:
+        if isinstance(repo, AnalysisError):
+            raise repo
         if repo is None:
             repo = Repo(root=root, overlay=overlay)
         ck = Check(prop, repo, tier)
@@ -120,7 +131,37 @@ def self_check():
     return 0
 
 
+class _QuietPipe:
+    """stdout that ignores a reader that went away (`... | head`): the exit
+    status must not depend on who is listening."""
+
+    def __init__(self, stream):
+        self._s = stream
+        self._dead = False
+
+    def write(self, text):
+        if self._dead:
+            return len(text)
+        try:
+            return self._s.write(text)
+        except BrokenPipeError:
+            self._dead = True
+            return len(text)
+
+    def flush(self):
+        if self._dead:
+            return
+        try:
+            self._s.flush()
+        except BrokenPipeError:
+            self._dead = True
+
+    def __getattr__(self, name):
+        return getattr(self._s, name)
+
+
 if __name__ == '__main__':
+    sys.stdout = _QuietPipe(sys.stdout)
     try:
         code = main()
     except SystemExit:
